@@ -351,128 +351,222 @@ end C03
 
 namespace C05
 
+/-- Monitor state.  One violation flag per conjunct of the property. -/
 structure St where
-  now : Nat := 0
-  ops : Nat := 0
+  now : Nat := 0                     -- time elapsed on the retry clock
+  att : Nat := 0                     -- number of the current attempt (attempts begun so far)
+  opSince : Bool := false            -- the operation has been invoked since the last failure classification
   lastCls : Option Classification := none
   lastCause : Cause := .exception
-  prev : Option Nat := none          -- previously applied delay
-  strats : Nat := 0                  -- strategy calls since the last op
-  delay : Option Nat := none         -- sanitised output of the strategy call of this attempt
-  bad : Bool := false
+  prev : Option Nat := none          -- previously applied delay (= delay of the last GRANTED retry)
+  strats : Nat := 0                  -- strategy calls in the current attempt
+  delay : Option Nat := none         -- sanitised output of the last strategy call
+  badSel : Bool := false             -- a strategy other than table[class] / default was consulted
+  badArgs : Bool := false            -- a strategy saw wrong arguments
+  badCount : Bool := false           -- > 1 strategy call in one attempt, or a retry without exactly one
+  badSleep : Bool := false           -- the sleeper received something else than the sanitised output
+  badFlow : Bool := false            -- handler / before_sleep / sleeper / `retry` event saw another delay
 
 def sanitize := Retry.sanitize
 
+/-- A failure classification.  It ends the attempt's "operation phase"; when the operation was not
+    invoked since the previous classification (only in `execute()`: an attempt hook raised before the
+    operation could be invoked and the loop handles that error as this attempt's failure) it is
+    itself the beginning of the attempt. -/
+def clsStep (s : St) (c : Classification) (cause : Cause) : St :=
+  if s.opSince then { s with opSince := false, lastCls := some c, lastCause := cause }
+  else { s with att := s.att + 1, strats := 0, lastCls := some c, lastCause := cause }
+
+/-- what the strategy must have been asked, judged at time `t` of the request -/
+def selOk (cfg : Cfg) (s : St) (key : SKey) (kind : SKind) : Bool :=
+  (s.lastCls.bind fun c => cfg.selectStrategy c.klass) == some (key, kind)
+
+def argsOk (cfg : Cfg) (s : St) (t : Nat) (kind : SKind) (ctx : BackoffCtx) : Bool :=
+  ctx.attempt == s.att
+  && (s.lastCls.map (·.klass)) == some ctx.klass
+  && ctx.prev == s.prev
+  && (kind == .legacy ||
+       ((s.lastCls.bind (·.retryAfter)) == ctx.retryAfter
+        && ctx.remaining + t == cfg.deadline && decide (0 < ctx.remaining)
+        && ctx.cause == s.lastCause))
+
+/-- a strategy call at time `t` answered by `a` -/
+def stratStep (cfg : Cfg) (s : St) (t : Nat) (key : SKey) (kind : SKind) (ctx : BackoffCtx) (a : Ans) : St :=
+  let d := match a with
+    | .delay out _ => some (sanitize out (cfg.deadline - t))
+    | _ => none
+  { s with strats := s.strats + 1, delay := d,
+           -- without a budget the retry is granted as soon as the strategy has answered
+           prev := if cfg.budget.isNone && d.isSome then d else s.prev,
+           badSel := s.badSel || !selOk cfg s key kind,
+           badArgs := s.badArgs || !argsOk cfg s t kind ctx,
+           badCount := s.badCount || decide (s.strats ≥ 1) }
+
+/-- somebody is handed the delay `d` of a granted retry -/
+def consume (s : St) (d : Nat) : St :=
+  { s with badFlow := s.badFlow || !(s.delay == some d), badCount := s.badCount || !(s.strats == 1) }
+
 def step (cfg : Cfg) (s : St) (x : Req × Ans) : St :=
-  let after := s.now + x.2.dur
-  let s' := { s with now := after }
-  match x.1, x.2 with
-  | .op _, _ => { s' with ops := s.ops + 1, strats := 0, delay := none }
-  | .classify _, .klass c _ => { s' with lastCls := some c, lastCause := .exception }
-  | .resultClassify _, .klass c _ => { s' with lastCls := some c, lastCause := .result }
-  | .strategy key kind ctx, a =>
-    let expected := s.lastCls.bind fun c => cfg.selectStrategy c.klass
-    let argsOk :=
-      expected == some (key, kind)
-      && ctx.attempt == s.ops
-      && (s.lastCls.map (·.klass)) == some ctx.klass
-      && ctx.prev == s.prev
-      && (kind == .legacy ||
-           ((s.lastCls.bind (·.retryAfter)) == ctx.retryAfter
-            && ctx.remaining + s.now == cfg.deadline && decide (0 < ctx.remaining)
-            && ctx.cause == s.lastCause))
-    let d := match a with
-      | .delay out _ => some (sanitize out (cfg.deadline - s.now))
-      | _ => none
-    { s' with strats := s.strats + 1, delay := d, bad := s.bad || !argsOk || decide (s.strats ≥ 1) }
-  | .metric .retry _ sl _, _ => { s' with bad := s.bad || s.delay != some sl }
-  | .log .retry _ sl _ _, _ => { s' with bad := s.bad || s.delay != some sl }
-  | .budgetConsume, .granted true => { s' with prev := s.delay }
-  | .sleepHandler _ _ d, _ => { s' with bad := s.bad || s.delay != some d,
-                                        prev := if cfg.budget.isNone then s.delay else s.prev }
-  | .beforeSleep _ _ d, _ => { s' with bad := s.bad || s.delay != some d }
-  | .sleeper _ d, _ => { s' with bad := s.bad || s.delay != some d || s.strats != 1,
-                                 prev := if cfg.budget.isNone then s.delay else s.prev }
-  | _, _ => s'
+  let t := s.now
+  let s := { s with now := s.now + x.2.dur }
+  match x.1 with
+  | .op _ => { s with att := s.att + 1, opSince := true, strats := 0 }
+  | .classify _ => (match x.2 with
+      | .klass c _ => clsStep s c .exception
+      | _ => s)
+  | .resultClassify _ => (match x.2 with
+      | .klass c _ => clsStep s c .result
+      | _ => s)
+  | .strategy key kind ctx => stratStep cfg s t key kind ctx x.2
+  | .metric ev _ sl _ => if ev = .retry then consume s sl else s
+  | .log ev _ sl _ _ => if ev = .retry then consume s sl else s
+  | .budgetConsume => (match x.2 with
+      | .granted true => { s with prev := s.delay }
+      | _ => s)
+  | .sleepHandler _ _ d => consume s d
+  | .beforeSleep _ _ d => consume s d
+  | .sleeper _ d => { consume s d with badSleep := s.badSleep || !(s.delay == some d) }
+  | _ => s
 
 def run (cfg : Cfg) (t : Trace) : St := t.foldl (step cfg) {}
 
-def nextSleepOf : Res → Option (Option Nat)
-  | .outcome o _ => some o.nextSleep
-  | .raised (.libExhausted f) => some f.nextSleep
-  | _ => none
+/-- a reported `next_sleep_s` is the delay of the (one) strategy call of the last attempt -/
+def nsOk (s : St) : Option Nat → Bool
+  | some d => s.delay == some d && s.strats == 1
+  | none => true
+
+/-- `next_sleep_s` as reported by the result.  A `RetryExhaustedError` object that one of the caller's
+    own callbacks raised (rather than the library) reports nothing about this run (model-only: the
+    implementation's own exhaustion errors are never produced by callbacks). -/
+def resOk (t : Trace) (s : St) : Res → Bool
+  | .outcome o _ => nsOk s o.nextSleep
+  | .raised (.libExhausted f) => Mon.raisedBy (fun _ => true) t (.libExhausted f) || nsOk s f.nextSleep
+  | _ => true
+
+def selectedOk : Monitor := fun cfg e t _ => !hasLoop cfg e || !(run cfg (retryTrace t)).badSel
+def argsAreOk : Monitor := fun cfg e t _ => !hasLoop cfg e || !(run cfg (retryTrace t)).badArgs
+def countOk : Monitor := fun cfg e t _ => !hasLoop cfg e || !(run cfg (retryTrace t)).badCount
+def sleeperOk : Monitor := fun cfg e t _ => !hasLoop cfg e || !(run cfg (retryTrace t)).badSleep
+def flowOk : Monitor := fun cfg e t r =>
+  !hasLoop cfg e || (!(run cfg (retryTrace t)).badFlow && resOk t (run cfg (retryTrace t)) r)
 
 def ok : Monitor := fun cfg e t r =>
-  if hasLoop cfg e && !Mon.attemptHookFault t then
-    let s := run cfg (retryTrace t)
-    !s.bad
-    && (match nextSleepOf r with
-        | some (some d) => s.delay == some d
-        | _ => true)
-  else true
+  selectedOk cfg e t r && argsAreOk cfg e t r && countOk cfg e t r && sleeperOk cfg e t r && flowOk cfg e t r
 
 end C05
 
 namespace C16
 
+/-- Monitor state.  One violation flag per conjunct of the property. -/
 structure St where
-  handler : Option (SleepDecision × Nat) := none   -- decision of this attempt's handler call
-  handlerCalls : Nat := 0                          -- since the last op
-  before : Option Nat := none                      -- before_sleep seen (its d)
-  slept : Nat := 0                                 -- sleeper calls since the last op
-  stopped : Option SleepDecision := none           -- a DEFER/ABORT/other decision has been taken
+  pending : Bool := false                          -- a retry has been granted; its sleeper call is still due
+  handler : Option (SleepDecision × Nat) := none   -- decision of the handler call for the pending retry
+  handlerCalls : Nat := 0                          -- handler calls for the pending retry
+  before : Option Nat := none                      -- before_sleep seen for the pending retry (its d)
+  stopped : Option SleepDecision := none           -- a DEFER / ABORT / non-SleepDecision answer was given
   deferD : Option Nat := none
-  bad : Bool := false
+  late : List Exn := []                            -- errors callbacks raised after that answer (not swallowed)
+  badHandler : Bool := false     -- handler not consulted exactly once per granted retry
+  badSleep : Bool := false       -- not: before_sleep (if any), then exactly one sleeper call, same delay
+  badStop : Bool := false        -- a sleep, another retry or another attempt after DEFER / ABORT / bad answer
+  badLevel : Bool := false       -- a policy-level callback used although a call-level one was given
+  badSkip : Bool := false        -- next attempt (or next retry) although the granted retry never slept
+
+/-- requests whose `Exception`s the library swallows -/
+def swallows : Req → Bool
+  | .metric .. | .log .. | .beforeSleep .. => true
+  | _ => false
+
+/-- the exchange is a callback raising something that propagates -/
+def raisedOf (x : Req × Ans) : Option Exn :=
+  match x.2 with
+  | .raise e _ => if swallows x.1 && e.isException then none else some e
+  | _ => none
+
+/-- a retry is granted -/
+def grant (s : St) : St :=
+  { s with pending := true, handler := none, handlerCalls := 0, before := none,
+           badStop := s.badStop || s.stopped.isSome, badSkip := s.badSkip || s.pending }
 
 def step (cfg : Cfg) (s : St) (x : Req × Ans) : St :=
-  match x.1, x.2 with
-  | .op _, _ =>
-    { s with handler := none, handlerCalls := 0, before := none, slept := 0,
-             bad := s.bad || s.stopped.isSome }
-  | .sleepHandler lvl _ d, a =>
+  let s := { s with late := if s.stopped.isSome then
+                               (match raisedOf x with
+                                | some e => e :: s.late
+                                | none => s.late)
+                             else s.late }
+  match x.1 with
+  | .op _ => { s with badStop := s.badStop || s.stopped.isSome, badSkip := s.badSkip || s.pending }
+  | .strategy .. => (match x.2 with
+      | .delay .. => if cfg.budget.isNone then grant s else s
+      | _ => s)
+  | .budgetConsume => (match x.2 with
+      | .granted true => grant s
+      | _ => s)
+  | .sleepHandler lvl _ d =>
     let s := { s with handlerCalls := s.handlerCalls + 1,
-                      bad := s.bad || s.stopped.isSome || decide (s.handlerCalls ≥ 1)
-                             || cfg.handler != some lvl }
-    (match a with
+                      badStop := s.badStop || s.stopped.isSome,
+                      badHandler := s.badHandler || !s.pending || decide (s.handlerCalls ≥ 1),
+                      badLevel := s.badLevel || cfg.handler != some lvl }
+    (match x.2 with
      | .decision .sleep _ => { s with handler := some (.sleep, d) }
-     | .decision dec _ => { s with handler := some (dec, d), stopped := some dec,
-                                   deferD := if dec == .defer then some d else s.deferD }
+     | .decision dec _ => { s with handler := some (dec, d), stopped := some dec, late := [],
+                                   deferD := if dec = .defer then some d else s.deferD }
      | _ => s)
-  | .beforeSleep lvl _ d, _ =>
+  | .beforeSleep lvl _ d =>
     { s with before := some d,
-             bad := s.bad || s.stopped.isSome || cfg.beforeSleep != some lvl
-                    || (cfg.handler.isSome && s.handler != some (.sleep, d)) || decide (s.slept ≥ 1) }
-  | .sleeper lvl d, _ =>
-    { s with slept := s.slept + 1,
-             bad := s.bad || s.stopped.isSome || cfg.sleeper != lvl || decide (s.slept ≥ 1)
-                    || (cfg.handler.isSome && s.handler != some (.sleep, d))
-                    || (cfg.beforeSleep.isSome && s.before != some d) }
-  | _, _ => s
+             badStop := s.badStop || s.stopped.isSome,
+             badLevel := s.badLevel || cfg.beforeSleep != some lvl,
+             badHandler := s.badHandler || (cfg.handler.isSome && s.handler != some (.sleep, d)),
+             badSleep := s.badSleep || !s.pending || s.before.isSome }
+  | .sleeper lvl d =>
+    { s with pending := false,
+             badStop := s.badStop || s.stopped.isSome,
+             badLevel := s.badLevel || cfg.sleeper != lvl,
+             badHandler := s.badHandler || (cfg.handler.isSome && s.handler != some (.sleep, d)),
+             badSleep := s.badSleep || !s.pending || (cfg.beforeSleep.isSome && s.before != some d) }
+  | _ => s
 
 def run (cfg : Cfg) (t : Trace) : St := t.foldl (step cfg) {}
 
-def resMatches (s : St) (r : Res) : Bool :=
-  match s.stopped with
-  | none => true
-  | some .defer => (match r with
-      | .outcome o _ => o.stop == some .scheduled && o.nextSleep == s.deferD
-      | .raised (.libExhausted f) => f.stop == .scheduled && f.nextSleep == s.deferD
-      | .raised e => !e.isException || !(e matches .libAbort)    -- a later callback error may win
-      | .ret _ => false)
-  | some .abort => (match r with
-      | .outcome o _ => o.stop == some .aborted
-      | .raised e => e.isAbort || !(e matches .libExhausted _)
-      | .ret _ => false)
-  | some _ => (match r with
-      | .ret _ => false
-      | .outcome .. => false
-      | .raised _ => true)
+/-- how the run must end after the decision `dec` when nothing intervenes -/
+def expected (s : St) (dec : SleepDecision) (r : Res) : Bool :=
+  match dec with
+  | .defer => (match r with
+      | .outcome o _ => o.stop == some .scheduled && o.nextSleep == s.deferD && s.deferD.isSome
+      | .raised (.libExhausted f) => f.stop == .scheduled && f.nextSleep == s.deferD && s.deferD.isSome
+      | _ => false)
+  | .abort => (match r with
+      | .outcome o _ => o.stop == some .aborted && o.nextSleep.isNone
+      | .raised e => e == .libAbort
+      | _ => false)
+  | _ => r == .raised .libValueError
+
+/-- …or what may replace that ending: an error that a callback raised after the decision (including a
+    cancellation) propagates; in `execute()` an `AbortRetryError` among them turns the outcome into
+    ABORTED.  (`stuck` is the model's "ill-shaped answer"; it never occurs in the implementation.) -/
+def replaced (s : St) (r : Res) : Bool :=
+  match r with
+  | .raised e => s.late.contains e || e == .stuck
+  | .outcome o _ => o.stop == some .aborted && o.nextSleep.isNone && s.late.any Exn.isAbort
+  | .ret _ => false
+
+def resMatches (s : St) (dec : SleepDecision) (r : Res) : Bool :=
+  s.stopped != some dec || expected s dec r || replaced s r
+
+def handlerOk : Monitor := fun cfg e t _ => !hasLoop cfg e || !(run cfg t).badHandler
+def sleepOk : Monitor := fun cfg e t _ => !hasLoop cfg e || !(run cfg t).badSleep
+def deferOk : Monitor := fun cfg e t r =>
+  !hasLoop cfg e || ((!(run cfg t).badStop || (run cfg t).stopped != some .defer) && resMatches (run cfg t) .defer r)
+def abortOk : Monitor := fun cfg e t r =>
+  !hasLoop cfg e || ((!(run cfg t).badStop || (run cfg t).stopped != some .abort) && resMatches (run cfg t) .abort r)
+def otherOk : Monitor := fun cfg e t r =>
+  !hasLoop cfg e || ((!(run cfg t).badStop || (run cfg t).stopped != some .other) && resMatches (run cfg t) .other r)
+def levelOk : Monitor := fun cfg e t _ => !hasLoop cfg e || !(run cfg t).badLevel
+def skipOk : Monitor := fun cfg e t _ => !hasLoop cfg e || !(run cfg t).badSkip
 
 def ok : Monitor := fun cfg e t r =>
-  if hasLoop cfg e && !Mon.attemptHookFault t then
-    let s := run cfg t
-    !s.bad && resMatches s r
-  else true
+  handlerOk cfg e t r && sleepOk cfg e t r && deferOk cfg e t r && abortOk cfg e t r && otherOk cfg e t r
+  && levelOk cfg e t r && skipOk cfg e t r
 
 end C16
 
@@ -569,106 +663,180 @@ end C14
 
 namespace C04
 
+/-- Fold state shared by C04 and C11.  Everything is "of the last attempt" unless it says otherwise. -/
 structure St where
-  ops : Nat := 0
-  lastOp : Option Ans := none
-  lastCls : Option Classification := none      -- classification of the last op's failure
-  lastCause : Option Cause := none
+  ops : Nat := 0                               -- invocations of the operation so far
+  opExc : Option Exn := none                   -- the exception the last invocation raised
+  opVal : Option Nat := none                   -- the object the last invocation returned
+  cls : Option Classification := none          -- FIRST classification announced after the last op
+  pending : Bool := false                      -- a result failure was announced; the abort poll
+                                               -- that precedes its recording has not been seen yet
   succeeded : Bool := false                    -- last op's value was accepted as success
   earlierSuccess : Bool := false
-  delay : Option Nat := none                   -- delay offered to the last sleep handler call
-  deferred : Bool := false
+  delay : Option Nat := none                   -- delay offered to the sleep handler in this attempt
+  deferred : Bool := false                     -- … and it answered DEFER
+  badDecision : Bool := false                  -- … or something that is not a SleepDecision
+  -- the last RECORDED failure (`_RetryState.record_failure` ran for it)
+  recAt : Nat := 0                             -- value of `ops` then (0: none yet)
+  recExc : Option Exn := none
+  recVal : Option Nat := none
+  recCls : Option Classification := none
+  recCause : Option Cause := none
+  -- C11
+  abortedSuccess : Bool := false               -- strategy.record_success() raised AbortRetryError
+  fault : Bool := false                        -- a strategy / classifier / sleeper / sleep-handler
+                                               -- callback raised something other than an abort
+  opAfterFault : Bool := false                 -- … and the operation was invoked again afterwards
+  hookFault : Bool := false                    -- = `Mon.attemptHookFault`
+
+/-- the failure announced for the last op is recorded -/
+def record (s : St) (c : Classification) (cause : Cause) : St :=
+  { s with cls := some c, pending := false, recAt := s.ops, recCls := some c, recCause := some cause,
+           recExc := if cause = .exception then s.opExc else none,
+           recVal := if cause = .exception then none else s.opVal }
+
+/-- a callback of the caller (strategy, classifier, sleeper, sleep handler) raised `e` -/
+def faultBy (s : St) (e : Exn) : St := { s with fault := s.fault || !e.isAbort }
 
 def step (cfg : Cfg) (s : St) (x : Req × Ans) : St :=
   match x.1, x.2 with
   | .op _, a =>
-    { s with ops := s.ops + 1, lastOp := some a, lastCls := none, lastCause := none,
+    { s with ops := s.ops + 1,
+             opExc := (match a with | .raise e _ => some e | _ => none),
+             opVal := (match a with | .value v _ => some v | _ => none),
+             cls := none, pending := false,
              earlierSuccess := s.earlierSuccess || s.succeeded,
-             succeeded := (match a with | .value .. => !cfg.resultClassifier | _ => false) }
+             succeeded := (match a with | .value .. => !cfg.resultClassifier | _ => false),
+             delay := none, deferred := false, badDecision := false,
+             opAfterFault := s.opAfterFault || s.fault }
   | .resultClassify _, .noFailure _ => { s with succeeded := true }
-  | .resultClassify _, .klass c _ => { s with lastCls := some c, lastCause := some .result }
+  | .resultClassify _, .klass c _ =>
+    -- `check_abort` is polled between the announcement and `record_failure`
+    if cfg.abortIf then { s with cls := some c, pending := true } else record s c .result
+  | .resultClassify _, .raise e _ => faultBy s e
+  | .abortIf, .bool false _ =>
+    if s.pending then (match s.cls with
+      | some c => record s c .result
+      | none => s) else s
+  | .abortIf, .raise _ _ => { s with hookFault := true }
   | .classify _, .klass c _ =>
-    -- Policy.call classifies the final exception once more for the breaker: keep the first
-    if s.lastCls.isSome then s else { s with lastCls := some c, lastCause := some .exception }
-  | .sleepHandler _ _ d, .decision dec _ => { s with delay := some d, deferred := dec == .defer }
+    -- Policy.call classifies the final exception once more for the breaker: only the first
+    -- classification after an op that raised is the failure's class
+    if s.cls.isSome || s.opExc.isNone then s else record s c .exception
+  | .classify _, .raise e _ => faultBy s e
+  | .sleepHandler _ _ d, .decision dec _ =>
+    { s with delay := some d, deferred := dec == .defer, badDecision := dec == .other }
+  | .sleepHandler .., .raise e _ => faultBy s e
+  | .strategy .., .raise e _ => faultBy s e
+  | .stratRecordFailure .., .raise e _ => faultBy s e
+  | .stratRecordSuccess _, .raise e _ => { faultBy s e with abortedSuccess := s.abortedSuccess || e.isAbort }
+  | .sleeper .., .raise e _ => faultBy s e
+  | .attemptStart _, .raise _ _ => { s with hookFault := true }
+  | .attemptEnd _, .raise _ _ => { s with hookFault := true }
   | _, _ => s
 
 def run (cfg : Cfg) (t : Trace) : St := t.foldl (step cfg) {}
 
-/-- the exception is one the operation raised at some attempt -/
-def raisedByOp (t : Trace) (e : Exn) : Bool := Mon.raisedBy Mon.isOp t e
+/-- the exception is the one the LAST invocation of the operation raised -/
+def opRaised (s : St) (e : Exn) : Bool := s.opExc == some e
 
+/-- some callback other than the operation raised `e` -/
+def raisedByCallback (t : Trace) (e : Exn) : Bool := Mon.raisedBy (fun r => !Mon.isOp r) t e
+
+/-- a `RetryExhaustedError` made by the library describes the final attempt -/
+def fieldsOk (s : St) (f : ExhaustedFields) : Bool :=
+  f.attempts == s.ops
+  && s.recAt == s.ops                                   -- the recorded failure is the final attempt's
+  && f.lastClass == s.recCls.map (·.klass)
+  && (match s.recCause with
+      | some .result => f.lastResult == s.recVal && s.recVal.isSome && f.lastExc.isNone
+      | some .exception =>
+        -- an exception-caused stop re-raises the exception itself unless the retry was deferred
+        f.lastResult.isNone && f.lastExc == s.recExc.map Exn.ref && s.recExc.isSome && s.deferred
+      | none => false)
+  && ((f.stop == .scheduled) == s.deferred)
+  && (f.nextSleep == (if s.deferred then s.delay else none))
+
+/--
+Guards: `hasLoop` (the entry has a retry loop: `Retry.call`, or `Policy.call` with a retry
+component), `!isExecute` (C11's), `!rejected` (the breaker refused the call: C07's).
+-/
 def ok : Monitor := fun cfg e t r =>
-  if hasLoop cfg e && !e.isExecute && !Mon.rejected t && !Mon.attemptHookFault t then
+  if hasLoop cfg e && !e.isExecute && !Mon.rejected t then
     let s := run cfg t
     match r with
-    | .ret v => s.succeeded && !s.earlierSuccess && (match s.lastOp with
-        | some (.value v' _) => v == v'
-        | _ => false)
-    | .raised (.libExhausted f) =>
-      f.attempts == s.ops
-      && f.lastClass == s.lastCls.map (·.klass)
-      && (match s.lastCause, s.lastOp with
-          | some .result, some (.value v _) => f.lastResult == some v && f.lastExc.isNone
-          | some .exception, some (.raise ex _) => f.lastResult.isNone && f.lastExc == some ex.ref && s.deferred
-          | _, _ => cfg.maxAttempts == 0)
-      && ((f.stop == .scheduled) == f.nextSleep.isSome)
-      && (f.nextSleep.isNone || (s.deferred && f.nextSleep == s.delay))
-    | .raised ex =>
-      -- if it is an exception some attempt raised, it is the LAST attempt's
-      if raisedByOp t ex then (match s.lastOp with
-        | some (.raise e' _) => e' == ex
-        | _ => false)
-      else true
+    | .ret v => s.succeeded && !s.earlierSuccess && s.opVal == some v
     | .outcome .. => false
+    | .raised ex =>
+      -- the last attempt's own exception (and then no deferral was decided) …
+      (opRaised s ex && !s.deferred)
+      -- … or an error of one of the caller's callbacks, which is not call()'s to report …
+      || raisedByCallback t ex
+      -- … or an exception the library makes
+      || (match ex with
+          | .libExhausted f => fieldsOk s f
+          | .libRuntimeError => cfg.maxAttempts == 0 && s.ops == 0
+          | .libValueError => s.badDecision              -- C16's
+          | .libAbort => true                            -- C13's
+          | .stuck => true                               -- model only: the oracle ran dry
+          | _ => false)
   else true
 
 end C04
 
 namespace C11
 
-/-- exceptions that may propagate out of execute(): cancellation kinds, a RetryExhaustedError
-    raised by the operation itself, and errors raised by the caller's own callbacks -/
-def mayPropagate (t : Trace) (e : Exn) : Bool :=
-  e.isCancelKind
-  || (match e with
-      | .exhausted .. => C04.raisedByOp t e
-      | _ => false)
-  || Mon.raisedBy (fun r => !Mon.isOp r) t e
-  || e == .libValueError       -- a sleep handler returned a non-SleepDecision (caller's callback)
+/-- what may come out of execute() as an exception: something the last invocation of the
+    operation raised that is not an `Exception` (cancellation kinds) or is a RetryExhaustedError
+    (nested policy); an error raised by one of the caller's callbacks; the ValueError for a sleep
+    handler that did not return a SleepDecision -/
+def mayPropagate (s : C04.St) (t : Trace) (e : Exn) : Bool :=
+  (C04.opRaised s e && (!e.isException || e.isExhausted))
+  || C04.raisedByCallback t e
+  || (e == .libValueError && s.badDecision)
+  || e == .stuck                                         -- model only
 
+def failureOk (cfg : Cfg) (s : C04.St) (o : Outcome) : Bool :=
+  o.value.isNone && o.stop.isSome
+  && ((o.stop == some .scheduled) == s.deferred)
+  && (o.nextSleep == (if s.deferred then s.delay else none))
+  && (!s.abortedSuccess || o.stop == some .aborted)
+  -- the failure described is the last RECORDED one (none if there is none) …
+  && o.cause == s.recCause
+  && o.lastClass == s.recCls.map (·.klass)
+  && o.lastExc == s.recExc.map Exn.ref
+  && o.lastResult == s.recVal
+  && (match s.recCause with                              -- exactly one of last_exception / last_result
+      | some .exception => s.recExc.isSome && s.recVal.isNone
+      | some .result => s.recVal.isSome && s.recExc.isNone
+      | none => s.recExc.isNone && s.recVal.isNone && s.recCls.isNone)
+  -- … which is the final attempt's unless the run was aborted (the abort poll comes before
+  -- `record_failure`), and there is one unless no attempt was made
+  && (o.stop == some .aborted || s.recAt == s.ops)
+  && (o.stop == some .aborted || s.ops != 0 || (cfg.maxAttempts == 0 && o.stop == some .maxAttemptsGlobal))
+
+def successOk (s : C04.St) (o : Outcome) : Bool :=
+  o.value == s.opVal && s.opVal.isSome
+  && o.stop.isNone && o.lastClass.isNone && o.lastExc.isNone && o.lastResult.isNone
+  && o.cause.isNone && o.nextSleep.isNone
+
+/--
+Guards: `hasLoop`, `isExecute` (C04's otherwise), `!rejected` (C07's), `!attemptHookFault` (an
+attempt hook or `abort_if` itself raised: DESIGN §6.2).
+-/
 def ok : Monitor := fun cfg e t r =>
   if hasLoop cfg e && e.isExecute && !Mon.rejected t && !Mon.attemptHookFault t then
     let s := C04.run cfg t
-    match r with
-    | .ret _ => false
-    | .raised ex => mayPropagate t ex
-    | .outcome o _ =>
-      o.attempts == s.ops
-      && (o.ok == (s.succeeded && !s.earlierSuccess))
-      && (if o.ok then
-            (match s.lastOp with
-             | some (.value v _) => o.value == some v
-             | _ => false)
-            && o.stop.isNone && o.lastClass.isNone && o.lastExc.isNone && o.lastResult.isNone
-            && o.cause.isNone && o.nextSleep.isNone
-          else
-            o.value.isNone && o.stop.isSome
-            && ((o.stop == some .scheduled) == o.nextSleep.isSome)
-            && (o.nextSleep.isNone || o.nextSleep == s.delay)
-            && (match o.cause with          -- exactly one of last_exception / last_result
-                | some .exception => o.lastExc.isSome && o.lastResult.isNone && o.lastClass.isSome
-                | some .result => o.lastResult.isSome && o.lastExc.isNone && o.lastClass.isSome
-                | none => o.lastExc.isNone && o.lastResult.isNone && o.lastClass.isNone)
-            && (if o.stop == some .aborted then true    -- an abort may pre-empt recording the failure
-                else match s.lastCause, s.lastOp with
-                | some .result, some (.value v _) =>
-                  o.cause == some .result && o.lastResult == some v
-                  && o.lastClass == s.lastCls.map (·.klass)
-                | some .exception, some (.raise ex _) =>
-                  o.cause == some .exception && o.lastExc == some ex.ref
-                  && o.lastClass == s.lastCls.map (·.klass)
-                | _, _ => o.stop == some .maxAttemptsGlobal && cfg.maxAttempts == 0))
+    -- an error of the caller's strategy / classifier / sleeper / sleep handler is neither
+    -- swallowed nor retried: it ends execute() with an exception and no further invocation
+    (!s.fault || ((r matches .raised _) && !s.opAfterFault))
+    && (match r with
+        | .ret _ => false
+        | .raised ex => mayPropagate s t ex
+        | .outcome o _ =>
+          o.attempts == s.ops
+          && (o.ok == (s.succeeded && !s.earlierSuccess && !s.abortedSuccess))
+          && (if o.ok then successOk s o else failureOk cfg s o))
   else true
 
 end C11
